@@ -405,3 +405,211 @@ Lemma index_behind_witness :
     aget kB (c_view x) = Some 2 /\
     content_at (run true index_behind_sched) (c_ts x) (c_idx x) kB = None.
 Proof. eexists. do 5 (split; [vm_compute; reflexivity|]). vm_compute; reflexivity. Qed.
+
+(* ------------------------------------------------------------------ audit additions *)
+
+(* an open, streaming client has applied a snapshot of the CURRENT store incarnation *)
+Theorem open_stream_epoch c ls k x :
+  env_ok c ls -> client_of (run c ls) k = Some x -> is_open x = true -> streaming x = true ->
+  c_epoch x = st_epoch (run c ls) /\ c_idx x <> 0.
+Proof.
+  intros He Hx Hop Hstr. pose proof (ginv_of_env c ls He) as G.
+  set (st := run c ls) in *. destruct G as [Gnd Gst Ginc Ghi Gq Gh Gr Gi Gc Gn].
+  destruct Gh as (pub & r & Hlog & Hr & Hall & Hbuf & Hcl).
+  destruct (Hcl k x Hx) as (_ & _ & _ & _ & _ & Hsub).
+  unfold is_open in Hop. unfold streaming in Hstr.
+  destruct (c_sub x) as [sb|]; [|discriminate]. destruct (s_status sb); try discriminate.
+  destruct Hsub as [Hl [Hst|Hsn]].
+  2: { destruct Hsn as (_ & acc & rest & A & B2 & D & s & [[Hh _]|(_ & _ & Hpre)] & _).
+       - rewrite Hh in Hstr. discriminate.
+       - rewrite Hpre in Hstr. destruct (c_h x); discriminate. }
+  destruct Hst as (_ & _ & He' & _ & A & D & R & E & Hc & _). destruct Hc as [_ _ _ _ Hss].
+  split; [exact He'|lia].
+Qed.
+
+Lemma run_snoc c ls l : run c (ls ++ [l]) = fst (step (run c ls) l).
+Proof. unfold run, run_from. rewrite fold_left_app. reflexivity. Qed.
+
+Lemma valid_from_app st a b : valid_from st (a ++ b) = true -> valid_from st a = true /\ valid_from (run_from st a) b = true.
+Proof.
+  revert st. induction a as [|l a IH]; intros st; cbn [app valid_from run_from fold_left]; [auto|].
+  intros H. apply andb_true_iff in H as [H1 H2]. destruct (IH _ H2) as [H3 H4].
+  split; [apply andb_true_iff; auto|exact H4].
+Qed.
+
+Lemma env_ok_app c a b : env_ok c (a ++ b) -> env_ok c a.
+Proof. unfold env_ok. intros H. apply valid_from_app in H. apply H. Qed.
+
+(* a client whose view stems from a replaced store incarnation never resumes: when it subscribes again
+   it is told to reset (NewSnapshotToFollow first) *)
+Theorem stale_resubscribe c ls k T tok rpc q x x' :
+  env_ok c (ls ++ [LSubscribe k T tok rpc q]) ->
+  client_of (run c ls) k = Some x -> c_idx x <> 0 -> c_epoch x <> st_epoch (run c ls) ->
+  client_of (run c (ls ++ [LSubscribe k T tok rpc q])) k = Some x' ->
+  match c_sub x' with
+  | Some sb => exists rest, s_pre sb = INstf :: rest
+  | None => True
+  end.
+Proof.
+  intros He Hx Hne Hep Hx'. pose proof (ginv_of_env c ls (env_ok_app _ _ _ He)) as G.
+  rewrite run_snoc in Hx'. set (st := run c ls) in *. cbn [step] in Hx'. unfold do_subscribe in Hx'.
+  unfold client_of in Hx, Hx'. rewrite Hx in Hx'.
+  pose proof (ginv_unsub st k G) as G1. pose proof (unsub_hist st k) as Hh.
+  pose proof (unsub_client st k x Hx) as Hx1.
+  set (st1 := fst (do_unsub st k)) in *.
+  destruct G1 as [_ _ _ _ _ Gh _ _ _ _]. destruct Gh as (pub & r & Hlog & Hr & Hall & Hbuf & Hcl).
+  destruct (Hcl k (drop_sub x) Hx1) as (_ & _ & _ & _ & Hk & _).
+  assert (Hle : c_idx x <= r).
+  { destruct Hk as [Hk|[[Hk _]|[_ Hk]]]; cbn [drop_sub c_idx c_epoch] in Hk.
+    - contradiction.
+    - rewrite Hh in Hk. cbn [hist_of h_epoch] in Hk. contradiction.
+    - exact Hk. }
+  unfold do_subscribe_core in Hx'. cbn [drop_sub c_ts c_idx c_tok c_rpc c_view c_epoch] in Hx'.
+  destruct (sub_path st1 (c_ts x) (c_idx x)) eqn:Ep; cbn [fst with_clients st_clients] in Hx'.
+  - rewrite find_put_client_same in Hx'. injection Hx' as <-. exact I.
+  - (* resume: impossible *)
+    exfalso. destruct (sub_path_not_err st1 (c_ts x) (c_idx x)) as [Hp _]; [rewrite Ep; discriminate|].
+    rewrite Ep in Hp.
+    destruct (negb (N.eqb (c_idx x) 0) && head_has_index (buf_items (c_ts x) (st_bufs st1)) (c_idx x)) eqn:Er;
+      [|destruct (find_snap (c_ts x) (st_cache st1)); discriminate].
+    apply andb_true_iff in Er as [_ Er]. apply head_index_spec in Er as (l & evs & Hit).
+    unfold buf_items in Hit. destruct (find_buf (c_ts x) (st_bufs st1)) as [tb|] eqn:Eb;
+      [|destruct l; discriminate].
+    destruct (Hbuf _ _ Eb) as [X HX].
+    assert (In (IEv (c_idx x) evs) (proj (c_ts x) (st_log st1))) as Hin.
+    { rewrite Hlog, proj_app, HX, Hit, !in_app_iff. left; right; right; left; reflexivity. }
+    apply proj_item_batch in Hin as (b & Hb & Hi). cbn [item_idx] in Hi.
+    rewrite Forall_forall in Hall. specialize (Hall b Hb). lia.
+  - destruct (find_snap (c_ts x) (st_cache st1)); cbn [fst st_clients] in Hx';
+      rewrite find_put_client_same in Hx'; injection Hx' as <-; cbn [c_sub s_pre];
+      apply N.eqb_neq in Hne; rewrite Hne; eauto.
+  - destruct (find_snap (c_ts x) (st_cache st1)); cbn [fst st_clients] in Hx';
+      rewrite find_put_client_same in Hx'; injection Hx' as <-; cbn [c_sub s_pre];
+      apply N.eqb_neq in Hne; rewrite Hne; eauto.
+Qed.
+
+(* ---- Next hands out [pending], item by item *)
+
+Definition deliverable (snap : N) (it : item) : bool := negb (skipped snap it).
+
+Lemma first_new_spec snap l off :
+  match first_new snap l off with
+  | Some (it, off') =>
+      exists R l', l = R ++ it :: l' /\ Forall (fun i => skipped snap i = true) R /\
+                   skipped snap it = false /\ off' = S (off + List.length R)
+  | None => Forall (fun i => skipped snap i = true) l
+  end.
+Proof.
+  revert off. induction l as [|a l IH]; intros off; cbn [first_new]; [constructor|].
+  destruct (skipped snap a) eqn:Ea.
+  - specialize (IH (S off)). destruct (first_new snap l (S off)) as [[it off']|].
+    + destruct IH as (R & l' & -> & HR & Hit & ->). exists (a :: R), l'.
+      split; [reflexivity|]. split; [constructor; assumption|]. split; [exact Hit|]. cbn [List.length]. lia.
+    + constructor; assumption.
+  - exists [], l. split; [reflexivity|]. split; [constructor|]. split; [exact Ea|]. cbn [List.length]. lia.
+Qed.
+
+Lemma filter_deliverable_skip snap R l :
+  Forall (fun i => skipped snap i = true) R -> filter (deliverable snap) (R ++ l) = filter (deliverable snap) l.
+Proof.
+  intros H. rewrite filter_app, filter_none; [reflexivity|].
+  eapply Forall_impl; [|exact H]. cbn. intros i Hi. unfold deliverable. rewrite Hi. reflexivity.
+Qed.
+
+Lemma in_skipn_in {A} n (l : list A) x : In x (skipn n l) -> In x l.
+Proof.
+  revert l. induction n as [|n IH]; intros l H; [exact H|].
+  destruct l as [|a l]; [destruct H|]. right. apply IH, H.
+Qed.
+
+Theorem next_is_pending_head c ls k x :
+  env_ok c ls -> client_of (run c ls) k = Some x -> is_open x = true -> streaming x = true ->
+  live_queue (run c ls) = [] ->
+  match pending (run c ls) x with
+  | [] => step (run c ls) (LNext k) = (run c ls, OBlock)
+  | it :: rest =>
+      snd (step (run c ls) (LNext k)) = ODeliver it /\
+      exists x', client_of (run c (ls ++ [LNext k])) k = Some x' /\ is_open x' = true /\ streaming x' = true /\
+                 pending (run c (ls ++ [LNext k])) x' = rest /\ live_queue (run c (ls ++ [LNext k])) = []
+  end.
+Proof.
+  intros He Hx Hop Hstr Hq.
+  destruct (stream_inv c ls k x He Hx Hop Hstr) as (sb & tb & A & D & R & E & Es & Hpre & Eb & Hc & Ht & HR & HE & Hsn).
+  pose proof (ginv_of_env c ls He) as G. rewrite run_snoc.
+  set (st := run c ls) in *. destruct G as [_ _ _ _ _ Gh _ _ _ _].
+  destruct Gh as (pub & r & Hlog & Hr & Hall & Hbuf & Hcl).
+  destruct (Hcl k x Hx) as (_ & _ & _ & _ & _ & Hsub). rewrite Es in Hsub.
+  unfold is_open in Hop. rewrite Es in Hop. destruct (s_status sb) eqn:Est; try discriminate.
+  destruct Hsub as [(tb0 & Etb0 & _ & Hid) _]. rewrite Eb in Etb0. injection Etb0 as <-.
+  assert (Hiev : Forall is_iev (tb_items tb)).
+  { destruct (Hbuf _ _ Eb) as [X HX]. pose proof (proj_iev (c_ts x) pub) as H. rewrite HX in H.
+    apply Forall_app in H. apply H. }
+  assert (Hpend : forall st', st_bufs st' = st_bufs st -> live_queue st' = [] -> forall y sb',
+            c_sub y = Some sb' -> c_ts y = c_ts x -> s_pre sb' = [] ->
+            pending st' y = filter (deliverable (s_snap sb')) (skipn (s_off sb') (tb_items tb))).
+  { intros st' Ebufs Eq' y sb' Ey Ety Epre'. unfold pending. rewrite Ey, Epre', Eq', Ety, Ebufs.
+    unfold buf_items. rewrite Eb. cbn [proj flat_map app]. rewrite app_nil_r. reflexivity. }
+  rewrite (Hpend st eq_refl Hq x sb Es eq_refl Hpre).
+  cbn [step]. unfold do_next. unfold client_of in Hx. rewrite Hx, Es, Est, Hpre. cbn [drop_skipped].
+  rewrite Eb, Hid, N.eqb_refl.
+  pose proof (first_new_spec (s_snap sb) (skipn (s_off sb) (tb_items tb)) (s_off sb)) as Hfn.
+  destruct (first_new (s_snap sb) (skipn (s_off sb) (tb_items tb)) (s_off sb)) as [[it off']|].
+  - destruct Hfn as (R0 & l' & HS & HR0 & Hit & Hoff). rewrite HS, filter_deliverable_skip by exact HR0.
+    cbn [filter]. unfold deliverable at 1. rewrite Hit. cbn [negb fst snd].
+    split; [reflexivity|].
+    assert (Hitiev : is_iev it).
+    { rewrite Forall_forall in Hiev. apply Hiev. apply (in_skipn_in (s_off sb)). rewrite HS, in_app_iff. right; left; reflexivity. }
+    destruct it as [i evs| |]; try contradiction.
+    unfold client_of. cbn [with_clients st_clients]. rewrite find_put_client_same.
+    eexists. split; [reflexivity|].
+    assert (Hh : c_h x = HStream \/ c_h x = HResume).
+    { unfold streaming in Hstr. destruct (c_h x); [discriminate|auto|auto]. }
+    assert (Hhd : handle (st_epoch st) x (Sub Open [] off' (s_buf sb) (snap_after (s_snap sb) (IEv i evs))) (IEv i evs) =
+                  Client (c_ts x) (c_tok x) (c_rpc x) (apply evs (c_view x)) i HStream
+                         (Some (Sub Open [] off' (s_buf sb) (s_snap sb))) (c_epoch x)).
+    { unfold handle. destruct Hh as [-> | ->]; reflexivity. }
+    rewrite Hhd. split; [reflexivity|]. split; [reflexivity|]. split.
+    + erewrite Hpend; [|reflexivity|exact Hq|cbn [c_sub]; reflexivity|reflexivity|reflexivity]. cbn [s_snap s_off].
+      assert (skipn off' (tb_items tb) = l') as ->; [|reflexivity].
+      rewrite Hoff. replace (S (s_off sb + List.length R0)) with ((List.length R0 + 1) + s_off sb)%nat by lia.
+      rewrite skipn_plus, HS.
+      replace (List.length R0 + 1)%nat with (List.length (R0 ++ [IEv i evs])) by (rewrite app_length; cbn; lia).
+      change (R0 ++ IEv i evs :: l') with (R0 ++ [IEv i evs] ++ l'). rewrite app_assoc.
+      rewrite skipn_app_le by lia. rewrite skipn_all. reflexivity.
+    + exact Hq.
+  - rewrite filter_none; [reflexivity|].
+    eapply Forall_impl; [|exact Hfn]. cbn. intros i Hi. unfold deliverable. rewrite Hi. reflexivity.
+Qed.
+
+(* ---- examples meeting the hypotheses of the forced-resubscribe theorems *)
+
+Definition acl_sched : list label :=
+  [ LCommit (Batch 10 [Ev kA (Some 1)] []); LPublish;
+    LSubscribe 0 T_web 5 true 10; LNext 0; LNext 0;
+    LCommit (Batch 11 [] [5]) ].
+
+Lemma acl_close_witness :
+  exists b q x sb,
+    env_ok true acl_sched /\
+    st_queue (run true acl_sched) = (st_epoch (run true acl_sched), b) :: q /\
+    client_of (run true acl_sched) 0 = Some x /\ c_sub x = Some sb /\ In (c_tok x) (b_close b) /\
+    snd (step (run true acl_sched) (LNext 0)) = OBlock /\
+    snd (step (fst (step (run true acl_sched) LPublish)) (LNext 0)) = OClosed AclClosed.
+Proof.
+  eexists _, _, _, _. do 4 (split; [vm_compute; reflexivity|]).
+  split; [vm_compute; left; reflexivity|]. split; vm_compute; reflexivity.
+Qed.
+
+Lemma restore_close_witness :
+  exists x sb x',
+    client_of (run true clean_sched) 0 = Some x /\ c_sub x = Some sb /\
+    snd (step (fst (step (run true clean_sched) (LRestore [(kA, 7)] 12))) (LNext 0)) = OClosed ForceClosed /\
+    (* after resubscribing: reset, new snapshot, view of the new incarnation, client epoch = store epoch *)
+    client_of (run true (clean_sched ++ [LRestore [(kA, 7)] 12; LNext 0; LSubscribe 0 T_web 0 true 12;
+                                         LNext 0; LNext 0])) 0 = Some x' /\
+    c_view x' = [(kA, 7)] /\ c_epoch x' = 1 /\
+    st_epoch (run true (clean_sched ++ [LRestore [(kA, 7)] 12; LNext 0; LSubscribe 0 T_web 0 true 12;
+                                        LNext 0; LNext 0])) = 1.
+Proof.
+  eexists _, _, _. do 6 (split; [vm_compute; reflexivity|]). vm_compute; reflexivity.
+Qed.
